@@ -235,7 +235,7 @@ def run(tier: str) -> int:
     for name, text in sim.example_inputs().items():
         if name.startswith(('Beckers', 'example6', 'example7', 'MC_', 'SUTRA')):
             continue
-        if tier == 'quick' and name.startswith(('example_SBT', 'Wanju', 'Fervo', 'example_SHR')):
+        if tier == 'quick' and name.startswith(('example_SBT',)):
             continue
         jobs.append((f'example:{name}', text))
     out = sim.run_many(jobs, 'harness.c03:project')
